@@ -29,17 +29,28 @@ def membership(entries):
     viols = []
     emap = dict(zip(NAMES, entries))
     case = {'kind': 'membership', 'entries': [None if e is None else str(e) for e in entries]}
-    uni = DynamicUniverse(dict(emap))
-    for q in QUERIES:
-        try:
-            got = list(uni.get_assets(q))
-        except Exception as e:  # noqa
-            viols.append({'clause': 'C19.membership_error', 'detail': {'error': repr(e), 'dt': str(q)}, 'case': case})
-            break
-        want = [a for a in NAMES if emap[a] is not None and emap[a] <= q]
-        if sorted(got) != sorted(want) or len(set(got)) != len(got):
-            viols.append({'clause': 'C19.membership', 'detail': {'dt': str(q), 'got': got, 'want': want,
-                                                                 'entries': case['entries']}, 'case': case})
+    # every ordered pair of query instants on ONE universe object (membership is a function of dt alone,
+    # whatever was asked before), plus the ascending sweep on one object
+    plans = [[q] for q in QUERIES] + [list(QUERIES)] + [[q1, q2] for q1 in QUERIES for q2 in QUERIES if q1 != q2]
+    for plan in plans:
+        uni = DynamicUniverse(dict(emap))
+        bad = False
+        for q in plan:
+            try:
+                got = list(uni.get_assets(q))
+            except Exception as e:  # noqa
+                viols.append({'clause': 'C19.membership_error', 'detail': {'error': repr(e), 'dt': str(q)}, 'case': case})
+                bad = True
+                break
+            want = [a for a in NAMES if emap[a] is not None and emap[a] <= q]
+            if sorted(got) != sorted(want) or len(set(got)) != len(got):
+                viols.append({'clause': 'C19.membership', 'detail': {'dt': str(q), 'got': got, 'want': want,
+                                                                     'entries': case['entries'],
+                                                                     'queried_before': [str(x) for x in plan[:plan.index(q)]]},
+                              'case': case})
+                bad = True
+                break
+        if bad:
             break
     present = [a for a, e in emap.items() if e is not None]
     st = StaticUniverse(list(present))
@@ -48,7 +59,8 @@ def membership(entries):
             viols.append({'clause': 'C19.static_universe', 'detail': {'dt': str(q), 'got': list(st.get_assets(q)),
                                                                       'want': present}, 'case': case})
             break
-    return {'viols': viols, 'execs': 2 * len(QUERIES), 'evals': 2 * len(QUERIES),
+    nq = sum(len(pl) for pl in plans) + len(QUERIES)
+    return {'viols': viols, 'execs': nq, 'evals': nq,
             'nontrivial': any(e is not None for e in entries), 'outcome': tuple(case['entries'])}
 
 
@@ -109,7 +121,7 @@ def entries_for(item):
     return start, end, sched, ent
 
 
-def check_session(item, label, entry, market, handler):
+def check_session(item, label, entry, market, handler, prequery=False):
     start, end, sched, _ = entries_for(item)
     entries = {'EQ:AAA': (start - datetime.timedelta(days=3)).isoformat(),
                'EQ:BBB': None if entry is None else entry.isoformat(), 'EQ:CCC': None}
@@ -121,8 +133,14 @@ def check_session(item, label, entry, market, handler):
         cfg['buffer'] = 0.05
     else:
         cfg['leverage'] = 1.0
-    case = {'kind': 'session', 'item': item, 'label': label, 'entry': None if entry is None else entry.isoformat()}
-    obs = sl.run_session(cfg, handler)
+    case = {'kind': 'session', 'item': item, 'label': label, 'entry': None if entry is None else entry.isoformat(),
+            'prequery': prequery}
+    universe = sl.make_universe(cfg)
+    if prequery:
+        # the universe object has been consulted before the session (e.g. by the user, or by an earlier run)
+        universe.get_assets(pd.Timestamp(end + datetime.timedelta(days=30)))
+        universe.get_assets(pd.Timestamp(start - datetime.timedelta(days=30)))
+    obs = sl.run_session(cfg, handler, universe=universe)
     fails = []
     if obs.error is not None:
         return [{'clause': 'C19.run_failed', 'detail': {'error': obs.error}, 'case': case}], 0
@@ -172,6 +190,9 @@ def per_session_item(item):
         for label, entry in entries_for(item)[3]:
             fails, b = check_session(item, label, entry, market, handler)
             n += 1
+            if not fails:
+                fails, _ = check_session(item, label, entry, market, handler, prequery=True)
+                n += 1
             nb += 1 if b else 0
             labels.add((item['kind'], item['weekday'], label.rstrip('0123456789'), bool(b)))
             viols += fails
@@ -218,7 +239,7 @@ def replay(case):
         sl.write_market(d, market)
         handler, _ = sl.load_handler(d, market)
         entry = None if case['entry'] is None else rm._parse(case['entry'])
-        return check_session(case['item'], case['label'], entry, market, handler)[0]
+        return check_session(case['item'], case['label'], entry, market, handler, case.get('prequery', False))[0]
     finally:
         mk.clear_caches()
         shutil.rmtree(d, ignore_errors=True)
